@@ -1,3 +1,4 @@
+pub mod blackbox;
 pub mod fen;
 pub mod hash;
 pub mod movegen;
@@ -54,6 +55,7 @@ pub fn run(ctx: &mut Ctx) -> bool {
             ctx.rule = "Pure part: cases are (wtime, btime, winc, binc, movestogo, side) tuples from a mixture of negative, zero, 1..200 (dense at 99/100/101), 10^2..10^7, powers of two up to 2^62 and i128 extremes, movestogo absent / 1..40 / 10^4 / u32::MAX, plus the exhaustive grid clock 0..=400 x inc {0,1,50,1000} x movestogo {absent,1,30} x both colours. Oracle (upper bounds only, +1 ms rounding, 1e-9 relative for f64 at huge values): (i) result unchanged when the opponent's clock and increment are replaced; (ii) clock > 100 => slice <= 0.8*(clock-100)/mtg with mtg = 30 when absent; (iii) clock <= 100 and inc <= 0 => 0; (iv) slice <= max(clock,0) except the listed known finding F6. parse_go_command is checked on generated token lists (fields in any order, ignorable tokens at key boundaries). Non-trivial = clock within 5 ms of the margin, or the two clocks differ by more than 2x, or an increment-only case; for parsing, a list containing ignored tokens; distinct by parameter tuple.".into();
             ctx.assumptions = vec!["a more cautious policy than the stated bound is not a violation (the property says 'at most')".into()];
             timectl::run_c09_pure(ctx);
+            blackbox::run_c09_timed(ctx);
         }
         "C07" => {
             ctx.level = "fault_enumeration".into();
@@ -67,6 +69,7 @@ pub fn run(ctx: &mut Ctx) -> bool {
             ctx.rule = "Cases are searches: for generated game-like positions (as C07) the search is run under the virtual clock at every expiry point 0..=K plus sampled deeper ones, and every captured info line of every run is parsed strictly as `info pv <moves> depth D nodes N score (cp X|mate Y) time T`; D >= 1 and non-decreasing, Y != 0 and |Y| <= 100, |X| <= 100000 and never the 9999999 sentinel, first pv move legal in the searched position (oracle), scores strictly increasing within one depth on a unified scale. Black-box part: the same line checks on the real binary's output in timed sessions. evaluations = searches executed. Non-trivial = a search emitting two or more lines at one depth or a mate score; distinct by game.".into();
             ctx.assumptions = vec!["output captured through the uci::send_to_gui hook (same formatting code path as stdout)".into()];
             search::run_expiry(ctx, search::Mode::C18);
+            blackbox::run_c18_blackbox(ctx);
         }
         "C10" => {
             ctx.rule = "Counts: cases are games with a repetition tail (a walk, then 0-25 out-and-back four-ply cycles, optionally cut short; from startpos, corpus and constructed starts) given to the engine's `position` handler; for every distinct position of the game (oracle identity: placement, side, rights, en passant target) the repetition record must hold exactly its multiplicity and the record's total must be plies+1. Search: games in which the side to move has a move into a position that already occurred >= 2 times (2..6 cycles, endgames with a material gap so the loser is often to move); the last info line of every completed depth 1..4 must be cp >= 0 or mate > 0, and the record is left as given. Non-trivial: a history with a position of multiplicity >= 2 (counts); the side to move materially lost (static eval < -150) with such a move available (search); distinct by game.".into();
@@ -82,6 +85,26 @@ pub fn run(ctx: &mut Ctx) -> bool {
             ctx.rule = "Cases are game-like positions with their game history (walks from the game-like corpus, near-mate placements, half with repetition cycles incl. counts >= 3). Reference model: plain fail-soft alpha-beta without PVS, killers, null move or ordering dependence over the engine's own generate_moves / get_evaluation / is_check with the engine's leaf rules in its order (repetition -> 0, depth 0 in check -> extend, else capture quiescence with stand-pat, no moves -> mate distance or 0), itself validated every run against unpruned minimax on small positions. The engine runs under the virtual clock until a depth-4 line appears; for d = 1,2,3 the last info line of depth d must report exactly the reference value (same cp/mate formatting) and the move sent last at that depth must attain it. Non-trivial = the value differs from the static evaluation after the first-ordered move, or a repetition / mate / stalemate leaf was reached; distinct by game.".into();
             ctx.assumptions = vec!["reference model in harness/src/props/searchsem.rs; agreement of its pruned and unpruned forms is checked on every run".into()];
             searchsem::run_c12(ctx);
+        }
+        "C03" => {
+            ctx.rule = "Cases are UCI sessions against the real release binary: a game-like non-terminal position given as `position fen F`, `position startpos moves ...` or `position fen F0 moves ...` (incl. a promotion-rich family: pawn one step from promotion, opponent able to castle or capture en passant next), then a chain of 1-6 `go` commands with parameters from {bare, ignored tokens only, zero / negative / below-margin clocks, 1-5 ms slice, <= 120 ms slice} x {increment or not} x {movestogo absent or 1..40} in any token order; consecutive gos continue from the engine's previous answer (tracked by the oracle). After each go exactly one line `bestmove <from><to>[qrbn]` must arrive before the `readyok` fencing a following `isready`, the move must be legal in the current position with the promotion letter present iff it promotes. Sessions run 16 and then 48 at a time to vary thread interleavings. evaluations = go commands. Non-trivial = the answer is a capture, castling, en passant, promotion or a check evasion, or it answers a second-or-later go of a chain; distinct by (position text, index in chain, go text).".into();
+            ctx.assumptions = vec!["OS schedules of the two engine threads are sampled under two load levels, not enumerated; the deterministic half (every board the search can hand back at every expiry point is a legal root successor) is C07".into()];
+            blackbox::run_c03(ctx);
+        }
+        "C08" => {
+            ctx.rule = "Cases are UCI sessions against the real binary: a position (game-like, or a checkmate / stalemate reached by playing finishing moves from near-mate constructions) + one `go` (slices 0-250 ms, movestogo >= 1 or absent) ; the `bestmove` (legal move, or `0000`/`(none)` when the game is over) must arrive within plan + 500 ms where plan is the engine's own calculate_time_slice for that command; then `isready` must be answered within 1 s, a fresh `position` + `go` must be served with a legal move, `quit` must end the process, and no thread may have panicked (stderr). A latency miss is re-measured twice serially; only three misses make a violation; a missing answer is detected after plan + 10 s. Non-trivial = terminal position, or a slice > 0; distinct by (position, go).".into();
+            ctx.assumptions = vec!["positions with material unreachable in play are outside the domain (quiescence has no clock check)".into(), "schedules are sampled (<= 8 engines at a time)".into()];
+            blackbox::run_c08(ctx);
+        }
+        "C16" => {
+            ctx.rule = "Cases are UCI sessions: 0-25 well-formed commands of earlier traffic (positions with move lists and repetition cycles, go with slices <= 30 ms, ucinewgame, setoption incl. the logging option, isready, ignorable lines; in a third of the cases also the probe's own position line followed by a go), then the probe `position X` + `go` (zero allowance) + `position X` + `go` (40-120 ms) sent twice. Oracle (differential): the zero-allowance bestmove equals that of a fresh process given only the probe; the timed runs' sequences of (depth, nodes, score, first pv move) agree with the fresh process and with each other on their common prefix. Non-trivial = earlier traffic containing a go and either a long move list or the probe's own position line; distinct by session.".into();
+            ctx.assumptions = vec!["the timed bestmove itself is not compared (it legitimately depends on where the clock cuts)".into()];
+            blackbox::run_c16(ctx);
+        }
+        "C17" => {
+            ctx.rule = "Cases are UCI sessions: after the handshake, a position, then 0-10 lines the engine does not understand (empty, blanks / tabs / unicode spaces, random words, `uci` again, `stop`, `ponderhit`, `debug on`, wrong-case commands, 200-600 character lines, unicode), real commands written with surplus whitespace, `isready` in between (must always give `readyok`), the zero-allowance answer re-asked mid-way (must be unchanged), a `go` with unknown tokens at key boundaries and a real 30-90 ms slice (must take the planned time and answer legally), then one of seven endings: quit when idle, quit right after go, stdin closed when idle / right after go (pending bestmove must still be printed) / before `uci` / after a blank line / after an unterminated whitespace fragment; the process must end within slice + 1 s (+1.5 s grace), observed, not killed. Non-trivial = >= 3 ignorable lines or an end-of-input ending; distinct by session.".into();
+            ctx.assumptions = vec!["outside the generated domain on purpose: invalid UTF-8, a bare `position`, non-numeric clock values, movestogo 0 (the statement does not list them as tolerated)".into()];
+            blackbox::run_c17(ctx);
         }
         _ => return false,
     }
@@ -101,8 +124,14 @@ pub fn replay(prop: &str, _family: &str, case: &Value) -> CaseResult {
         "C11" => searchsem::replay_c11(case),
         "C12" => searchsem::replay_c12(case),
         "C07" => search::replay_expiry(case, search::Mode::C07),
+        "C18" if case.get("blackbox").is_some() => blackbox::replay_go_session(case, true),
         "C18" => search::replay_expiry(case, search::Mode::C18),
+        "C09" if case.get("timed").is_some() => blackbox::replay_c09_timed(case),
         "C09" => timectl::replay_c09_pure(case).unwrap_or_else(|| Err("unknown C09 replay case".into())),
+        "C03" => blackbox::replay_go_session(case, false),
+        "C08" => blackbox::replay_c08(case),
+        "C16" => blackbox::replay_c16(case),
+        "C17" => blackbox::replay_c17(case),
         "C05" => hash::replay_c05(case),
         _ => Err(format!("no replay for property {}", prop)),
     }
